@@ -641,6 +641,64 @@ def run(facts):
                 res.bad(key, b.loc(rb), "the handle is re-tagged as inline-Vec storage on a path that released the shared reference %d time(s) (must be exactly once, before)" % bad[1])
             else:
                 res.ok(key, b.loc(rb), "every path to the re-tagging either was already inline-Vec or released the shared reference exactly once (%d paths)" % n_p, nontrivial=True)
+    # --- the reference is released last: no read of the view after giving the reference up ------------
+    READ_CALLS = ("core::slice::from_raw_parts", "alloc::slice::<impl [T]>::to_vec", "core::ptr::copy", "core::ptr::copy_nonoverlapping",
+                  "core::intrinsics::copy", "core::intrinsics::copy_nonoverlapping", "alloc::vec::Vec::<T, A>::extend_from_slice")
+    n_rl = 0
+    for b in facts.fn_bodies():
+        eb = ExprBuilder(b, facts, inline=False)
+        kinds = {}
+        for bi, blk in enumerate(b.blocks):
+            if blk["cleanup"]:
+                continue
+            ev, calls = a2.block_events(b, bi, eb)
+            t = blk["term"]
+            k = set()
+            if ev.get("rel") or ev.get("owner_drop"):
+                k.add("rel")
+            if ev.get("teardown") or ev.get("buf_own"):
+                k.add("take")
+            for (cb, args) in calls:
+                sub = a2.summary(cb)
+                if any(get(v, "rel") or get(v, "owner_drop") for v in sub) and all(get(v, "rel") or get(v, "owner_drop") for v in sub):
+                    k.add("rel")
+            if t["k"] == "call":
+                fn = callee(t)
+                if fn is not None:
+                    p = (fn.get("res") or fn)["path"]
+                    if p in READ_CALLS:
+                        k.add("read")
+                    if p in ("core::mem::replace", "core::mem::take", "core::mem::swap"):
+                        k.add("take")
+            if k:
+                kinds[bi] = k
+        if not any("rel" in k for k in kinds.values()) or not any("read" in k for k in kinds.values()):
+            continue
+        n_rl += 1
+        bad = None
+        for path in enumerate_paths(b, limit=5000):
+            released = False
+            took = False
+            took_before = False
+            for bi in path:
+                k = kinds.get(bi, ())
+                if "take" in k:
+                    took = True
+                if "read" in k and released and not took_before:
+                    bad = (path, bi)
+                    break
+                if "rel" in k and not released:
+                    released = True
+                    took_before = took
+            if bad:
+                break
+        key = "%s|release last" % b.id
+        if bad:
+            res.bad(key, b.loc(bad[1]), "the view is read at %s after this handle's reference was already released (another owner may free or reuse the "
+                                        "buffer in between): copy first, release last" % b.loc(bad[1]), path="bb" + "->bb".join(str(x) for x in bad[0]))
+        else:
+            res.ok(key, b.loc(), "every read of the view precedes the release (or follows a take-over of the buffer)", nontrivial=True)
+    res.floor("release_last_functions", n_rl, 4)
     res.floor("paths", n_paths, 60)
     res.floor("vtables", len(a2.vts), 6)
     return res
